@@ -473,6 +473,7 @@ def synthetic_positions(ctx):
                 if pc == 'p' and (sq < 8 or sq >= 56): continue
                 out.append(board_to_rows(b2) + ' b KQkq - 0 1')
     out += pawn_families(ctx)
+    out += ep_pin_families()
     # keep only positions the rules accept as legal (side not to move not in check)
     good = []
     for f in out:
@@ -510,6 +511,37 @@ def pawn_families(ctx):
                         if b[wk] != '1' or b[bk] != '1': continue
                         b2 = list(b); b2[wk] = 'K'; b2[bk] = 'k'
                         out.append(board_to_rows(b2) + (' w' if white else ' b') + ' - - 0 1')
+    return out
+
+def ep_pin_families():
+    """en-passant captures that would uncover a rank attack on the own king (both colours, every file, both capture
+    directions, king left or right), with the capturing pawn's push square blocked so the capture is its first move"""
+    out = []
+    for white in (True, False):
+        row = 3 if white else 4            # rank 5 / rank 4
+        for pf in range(8):                # file of the capturing pawn
+            for df in (-1, 1):
+                vf = pf + df               # file of the pawn that just double-pushed
+                if not 0 <= vf < 8: continue
+                lo, hi = min(pf, vf), max(pf, vf)
+                for king_left in (True, False):
+                    for blocked in (True, False):
+                        b = ['1'] * 64
+                        b[8 * row + pf] = 'P' if white else 'p'
+                        b[8 * row + vf] = 'p' if white else 'P'
+                        kf = lo - 2 if king_left else hi + 2
+                        rf = hi + 2 if king_left else lo - 2
+                        if not (0 <= kf < 8 and 0 <= rf < 8): continue
+                        b[8 * row + kf] = 'K' if white else 'k'
+                        b[8 * row + rf] = 'r' if white else 'R'
+                        if blocked:
+                            b[8 * (row - 1 if white else row + 1) + pf] = 'n' if white else 'N'
+                        ok = 60 if white else 4
+                        other = (4 if white else 60)
+                        if b[other] != '1': continue
+                        b[other] = 'k' if white else 'K'
+                        ep = 'abcdefgh'[vf] + ('6' if white else '3')
+                        out.append(board_to_rows(b) + (' w' if white else ' b') + f' - {ep} 0 1')
     return out
 
 def compress(row):
@@ -979,7 +1011,7 @@ def run_property(prop, tier, seed, replay=None):
     if not os.path.exists(RUST_BIN) or not model_ok:
         # nothing to run against: report what broke
         path = write_replay(prop, {'property': prop, 'broken': proof_failures, 'note': 'no driver available; no failing input could be searched for'})
-        write_evidence(prop, tier, seed, 'proof', {'obligations': len(obl.get('theorems', [])) + 1, 'discharged': 0, 'checker_cmd': ' ; '.join(checker_cmds) or 'n/a',
+        write_evidence(prop, 'thorough' if tier == 'thorough' else 'quick', seed, 'proof' if obl.get('theorems') else 'translation_validation', {'programs': 1, 'disagreements_checked': 0, 'obligations': len(obl.get('theorems', [])) + 1, 'discharged': 0, 'checker_cmd': ' ; '.join(checker_cmds) or 'n/a',
                        'trusted_base': TRUSTED, 'explanation': 'build failed', 'evaluations': 0, 'distinct_nontrivial': 0, 'samples': []}, [], time.time() - t0, 1)
         print(f'VIOLATION property={prop} replay={path} no-failing-input-found'); return 1
     ctx.rust = Driver('rust'); ctx.model = Driver('model')
@@ -1049,7 +1081,12 @@ def verdict(ctx, proof_failures, thms, checker_cmds, obl, t0):
            'rule': RULES.get(prop, ''), 'samples': ctx.samples or [{'note': 'no sample recorded'}], 'input_distribution': ctx.dist,
            'traces_validated_against_impl': ctx.corr_cmds.get('search', 0), 'exhaustive': bool(getattr(ctx, 'exhaustive', False)),
            'notes': ctx.notes}
-    write_evidence(prop, 'thorough' if ctx.tier == 'thorough' else 'quick', ctx.seed, 'proof', cov, ASSUME.get(prop, []) , time.time() - t0, nviol)
+    level = 'proof' if obl.get('theorems') else 'translation_validation'
+    cov['programs'] = max(sum(ctx.corr_cmds.values()), 1)
+    cov['disagreements_checked'] = len(ctx.disagreements)
+    cov['explanation'] = ('theorems about the Lean model (kernel-checked) plus the per-run model-to-code correspondence and the rules-specification oracle' if level == 'proof'
+                          else 'no theorem registered for this property yet: this run compared the executable Lean model with the engine (translation validation) and the engine with the rules specification')
+    write_evidence(prop, 'thorough' if ctx.tier == 'thorough' else 'quick', ctx.seed, level, cov, ASSUME.get(prop, []) , time.time() - t0, nviol)
     for l in lines: print(l)
     print(f'{prop}: {"HELD" if rc == 0 else "VIOLATED"} evaluations={ctx.evaluations} theorems={len(thms)} corr={ctx.corr_cmds} disagreements={len(ctx.disagreements)} oracle_failures={len(ctx.oracle_failures)} wall={time.time() - t0:.1f}s')
     return rc
@@ -1184,6 +1221,22 @@ def check_C03(ctx):
         for opts in [f'depth={d} maxtime=0', 'depth=-1 stop=0', 'depth=-1 stop=3 pollmask=15', f'depth={d} inject=0:quit', f'depth={d} inject=1:isready inject=2:stop pollmask=15']:
             so = run_search(ctx, pos, opts)
             judge(pos, fen, legal, opts, so)
+    # the no-PV fallback on a wide stream (cheap: the search stops at its first poll): special positions included
+    wide = ctx.gen.positions(400 if ctx.quick else 20000) + synthetic_positions(ctx)
+    for fen in wide:
+        inf = legal_info(ctx, fen)
+        if not inf or inf[3] != 'no': continue
+        classify(ctx, fen, *inf)
+        opts = rng.choice(['depth=2 maxtime=0', 'depth=3 stop=0', 'depth=-1 inject=0:quit'])
+        so = run_search(ctx, 'fen ' + fen, opts)
+        ctx.count('fallback-cases')
+        judge('fen ' + fen, fen, inf[0], opts, so)
+    # searches that run into the ply limit (iteration 64 on sparse boards, check extensions)
+    for fen, d in [('4k3/8/8/8/8/8/8/4K3 w - - 0 1', 64), ('4k3/8/8/8/8/8/8/4K3 b - - 0 1', -1), ('8/8/8/4k3/8/4K3/4P3/8 w - - 0 1', 40)] + ([('8/8/8/4k3/8/4K3/4P3/8 w - - 0 1', 62)] if not ctx.quick else []):
+        inf = legal_info(ctx, fen)
+        so = run_search(ctx, 'fen ' + fen, f'depth={d}', model=False)
+        ctx.count('ply-limit-searches')
+        judge('fen ' + fen, fen, inf[0], f'depth={d}', so)
     # every half-move-clock value 0..150 (the root drops into quiescence at exactly 100)
     hm_roots = [r for r in roots if 'K' in r[2]][: (4 if ctx.quick else 30)]
     for base, moves, fen, info in hm_roots:
@@ -1586,13 +1639,43 @@ def mate_positions(ctx, n):
         elif mi.endswith('1]'): kind = 'mate-in-2'
         elif '[1' in mw: kind = 'mated-in-1'
         elif mw.endswith('1]'): kind = 'mated-in-2'
+        elif sum(c.isalpha() for c in fen.split()[0]) <= 5 and len(out) % 4 == 0:
+            o3 = ctx.model.ask(f'oracle mate {fen} ; 3')
+            if len(o3) >= 2 and o3[0].endswith('1]'): kind = 'mate-in-3'
         if kind: out[fen] = kind
     return out
 
 
+def max_mate_n(fen):
+    """how far the rules' exhaustive mate search is affordable"""
+    return 3 if sum(c.isalpha() for c in fen.split()[0]) <= 5 else 2
+
+def small_endgames(ctx, n):
+    """random K+R / K+Q / K+R+R vs K placements with a forced mate in exactly 3 (rules' exhaustive search)"""
+    rng = ctx.gen.rng
+    out = {}
+    tries = 0
+    while len(out) < n and tries < 25 * n:
+        tries += 1
+        pieces = rng.choice(['KRk', 'KQk', 'KRRk', 'kqK', 'krK'])
+        sqs = rng.sample(range(64), len(pieces))
+        b = ['1'] * 64
+        for pc, s in zip(pieces, sqs): b[s] = pc
+        white_strong = pieces[0] == 'K' and pieces[-1] == 'k'
+        fen = board_to_rows(b) + (' w' if white_strong else ' b') + ' - - 0 1'
+        o = ctx.model.ask('fen ' + fen)
+        if not o or o[0].startswith('!'): continue
+        w = ctx.model.ask('oracle absfen ' + o[0])
+        if len(w) != 2 or w[1].strip() != 'wf': continue
+        m = ctx.model.ask(f'oracle mate {fen} ; 3')
+        if len(m) >= 3 and m[2] == 'terminal no' and m[0] == 'mateIn [0, 0, 1]':
+            out[fen] = 'mate-in-3'
+    return out
+
 def check_C11(ctx):
     consts_compare(ctx, ['MATE_VALUE', 'MATE_BOUND', 'INFINITY', 'MAX_PLY'])
-    mp = mate_positions(ctx, 90 if ctx.quick else 1500)
+    mp = mate_positions(ctx, 70 if ctx.quick else 1500)
+    mp.update(small_endgames(ctx, 12 if ctx.quick else 300))
     for line in load_regressions('C11'):
         mp[line] = 'regression'
     for fen, kind in mp.items():
@@ -1614,21 +1697,21 @@ def check_C11(ctx):
                 m = INFO_RE.match(l)
                 if not m or not m.group(1).startswith('mate'): continue
                 N = int(m.group(1).split()[1])
-                if abs(N) <= 2 and N != 0:
+                if N != 0 and abs(N) <= max_mate_n(fen):
                     o = ctx.model.ask(f'oracle mate {fen} ; {abs(N)}')
                     ok = (o[0].endswith('1]') if N > 0 else o[1].endswith('1]')) if len(o) >= 2 else False
                     if not ok:
                         ctx.oracle_fail('mate-announcement-untrue', cmd, {'line': l, 'fen': fen, 'rules': o[:2]})
     # warm table along a short game: mate scores re-based through the table keep their meaning
-    for fen, kind in list(mp.items())[: (20 if ctx.quick else 300)]:
-        if kind not in ('mate-in-2', 'mated-in-2'): continue
+    warm = [x for x in mp.items() if x[1] == 'mate-in-3'] + [x for x in mp.items() if x[1] in ('mate-in-2', 'mated-in-2')][: (10 if ctx.quick else 300)]
+    for fen, kind in warm:
         so = run_search(ctx, 'fen ' + fen, 'depth=5 tt=cold')
         if not so.bestmove: continue
         o = ctx.model.ask(f'oracle play {fen} ; {so.bestmove}')
         if len(o) != 2 or o[1].startswith('!'): continue
         f2 = o[1]
         if legal_info(ctx, f2)[3] != 'no': continue
-        for f, opts in [(f2, 'depth=5 tt=keep'), (fen, 'depth=5 tt=keep')]:
+        for f, opts in [(f2, 'depth=5 tt=keep'), (fen, 'depth=5 tt=keep'), (f2, 'depth=6 tt=keep'), (fen, 'depth=6 tt=keep')]:
             cmd = f'search fen {f} ; {opts}'
             so2 = run_search(ctx, 'fen ' + f, opts)
             ctx.count('warm-table-mate-searches')
@@ -1637,7 +1720,7 @@ def check_C11(ctx):
                 m = INFO_RE.match(l)
                 if m and m.group(1).startswith('mate'):
                     N = int(m.group(1).split()[1])
-                    if 0 < abs(N) <= 2:
+                    if 0 < abs(N) <= max_mate_n(f):
                         oo = ctx.model.ask(f'oracle mate {f} ; {abs(N)}')
                         ok = (oo[0].endswith('1]') if N > 0 else oo[1].endswith('1]')) if len(oo) >= 2 else False
                         if not ok:
@@ -1723,7 +1806,11 @@ def check_C18(ctx):
             ['position startpos moves e2e4 e7e6 c2c4 d8f6', 'go depth 7', 1.2],
         ]
         prefix = rng.choice(pre_choices)
-        out, rc = uci_session(prefix + ['ucinewgame', pos, f'go depth {d}', 1.0, 'quit'], timeout=40)
+        if i % 3 == 2:
+            # the search is interrupted by `ucinewgame` itself: the whole burst arrives while searching
+            prefix = [pos, 'go infinite', 0.2]
+        # the three lines are written in one burst so that they reach the input channel together
+        out, rc = uci_session(prefix + [f'ucinewgame\n{pos}\ngo depth {d}', 1.0, 'quit'], timeout=40)
         ctx.count('blackbox-ucinewgame-sessions')
         # the last search's transcript
         def last_search(lines):
@@ -1824,3 +1911,172 @@ RULES.update({
 for p in ['C03', 'C06', 'C07', 'C09', 'C11', 'C12', 'C17', 'C18', 'C19']:
     ASSUME[p] = ['stop arrival is modelled as a line placed in the input channel just before the k-th poll (deterministic schedule); real thread timing only in the black-box runs',
                  'searches larger than the model node limit are checked against the oracle only (counted as searches-engine-only)']
+
+
+# ------------------------------------------------------------------------------------------------
+# C13 UCI liveness
+# ------------------------------------------------------------------------------------------------
+
+import threading, queue
+
+class Session:
+    """the unguarded binary behind pipes, output lines timestamped by a reader thread"""
+    def __init__(self, env=None):
+        self.p = subprocess.Popen([PLAIN_BIN], stdin=subprocess.PIPE, stdout=subprocess.PIPE, stderr=subprocess.DEVNULL, text=True, bufsize=1, env=env or env_offline())
+        self.lines = []
+        self.t0 = time.time()
+        self.th = threading.Thread(target=self._read, daemon=True)
+        self.th.start()
+    def _read(self):
+        for l in self.p.stdout:
+            self.lines.append((time.time() - self.t0, l.rstrip('\n')))
+    def send(self, text):
+        try:
+            self.p.stdin.write(text + '\n'); self.p.stdin.flush(); return True
+        except (BrokenPipeError, OSError, ValueError):
+            return False
+    def eof(self):
+        try: self.p.stdin.close()
+        except Exception: pass
+    def wait_for(self, pred, timeout):
+        end = time.time() + timeout
+        while time.time() < end:
+            if pred(self.lines): return True
+            time.sleep(0.005)
+        return pred(self.lines)
+    def count(self, prefix):
+        return sum(1 for _, l in self.lines if l.startswith(prefix))
+    def finish(self, timeout):
+        try:
+            self.p.wait(timeout=timeout)
+        except subprocess.TimeoutExpired:
+            self.p.kill(); self.p.wait()
+            self.th.join(timeout=1)
+            return None
+        self.th.join(timeout=1)
+        return self.p.returncode
+
+
+def c13_session(ctx, rng, positions):
+    """one random legal GUI session; returns (script, failure-or-None)"""
+    s = Session()
+    script = []
+    exp = {'uciok': 0, 'readyok': 0, 'bestmove': 0}
+    def say(x):
+        script.append(x); s.send(x)
+    def fail(kind, detail):
+        rc = s.finish(1)
+        return script, (kind, detail, [l for _, l in s.lines if not l.startswith('info')][-8:])
+    n = rng.randrange(2, 9)
+    end_mode = rng.choice(['quit-idle', 'quit-idle', 'eof-idle', 'quit-search', 'eof-search'])
+    for step in range(n):
+        c = rng.random()
+        if c < 0.12:
+            say('uci'); exp['uciok'] += 1
+            if not s.wait_for(lambda L: sum(1 for _, l in L if l == 'uciok') == exp['uciok'], 3): return fail('uci-not-answered', {})
+        elif c < 0.25:
+            say('isready'); exp['readyok'] += 1
+            if not s.wait_for(lambda L: sum(1 for _, l in L if l == 'readyok') == exp['readyok'], 3): return fail('isready-not-answered', {})
+        elif c < 0.33:
+            say('ucinewgame')
+        elif c < 0.5:
+            say('position ' + rng.choice(positions))
+        elif c < 0.7:
+            say(rng.choice(['go depth 1', 'go depth 3', 'go depth 4', 'go movetime 20', 'go movetime 0', 'go wtime 100 btime 100', 'go wtime 3000 btime 3000 winc 10 binc 10 movestogo 40']))
+            exp['bestmove'] += 1
+            if not s.wait_for(lambda L: sum(1 for _, l in L if l.startswith('bestmove')) == exp['bestmove'], 6): return fail('go-not-answered', {})
+        else:
+            # an unlimited search with traffic while it runs (from a position whose search cannot finish by itself)
+            say('position ' + rng.choice(positions[:3]))
+            say(rng.choice(['go infinite', 'go', 'go depth 60']))
+            exp['bestmove'] += 1
+            time.sleep(rng.choice([0, 0.002, 0.03, 0.1]))
+            for _ in range(rng.randrange(0, 4)):
+                say('isready'); exp['readyok'] += 1
+                if not s.wait_for(lambda L: sum(1 for _, l in L if l == 'readyok') == exp['readyok'], 3): return fail('isready-during-search-not-answered', {})
+                if s.count('bestmove') == exp['bestmove']: return fail('isready-aborted-the-search', {})
+                time.sleep(rng.choice([0, 0.01]))
+            tail = rng.choice(['stop', 'stop\nisready', 'stop\nisready\nisready', 'stop\nuci'])
+            script.append(tail); s.send(tail)
+            exp['readyok'] += tail.count('isready'); exp['uciok'] += tail.count('uci')
+            if not s.wait_for(lambda L: sum(1 for _, l in L if l.startswith('bestmove')) == exp['bestmove'], 4): return fail('stop-not-answered-with-bestmove', {})
+            if not s.wait_for(lambda L: sum(1 for _, l in L if l == 'readyok') == exp['readyok'] and sum(1 for _, l in L if l == 'uciok') == exp['uciok'], 3):
+                return fail('command-after-stop-lost', {'expected': dict(exp)})
+    # termination
+    t_end = time.time()
+    if end_mode in ('quit-search', 'eof-search'):
+        say('position ' + rng.choice(positions[:3]))
+        say(rng.choice(['go infinite', 'go depth 50']))
+        time.sleep(rng.choice([0, 0.01, 0.1]))
+    if end_mode.startswith('quit'):
+        say('quit')
+    else:
+        script.append('<EOF>'); s.eof()
+    t_end = time.time()
+    rc = s.finish(3)
+    took = time.time() - t_end
+    if rc is None: return script, ('process-did-not-terminate', {'mode': end_mode}, [l for _, l in s.lines if not l.startswith('info')][-6:])
+    if rc != 0: return script, ('process-died', {'mode': end_mode, 'rc': rc}, [l for _, l in s.lines if not l.startswith('info')][-6:])
+    got = {k: sum(1 for _, l in s.lines if (l == k if k != 'bestmove' else l.startswith('bestmove'))) for k in exp}
+    if got['uciok'] != exp['uciok'] or got['readyok'] != exp['readyok'] or got['bestmove'] > exp['bestmove'] + (1 if end_mode.endswith('search') else 0) or got['bestmove'] < exp['bestmove']:
+        return script, ('answer-counts-differ', {'expected': exp, 'got': got}, [])
+    return script, None
+
+
+def check_C13(ctx):
+    rng = ctx.gen.rng
+    # deterministic schedules through the driver: lines placed in the channel at chosen polls, engine vs model, and the contract on the result
+    roots = search_roots(ctx, 25 if ctx.quick else 300)
+    lines_pool = ['isready', 'stop', 'quit', 'ucinewgame', 'position_startpos', 'go_depth_2', 'IsReady', 'isready_', 'd', 'uci', 'perft_2']
+    for base, moves, fen, info in roots:
+        pos = pos_args(base, moves)
+        d = rng.choice([2, 3, 4])
+        full = run_search(ctx, pos, f'depth={d} pollmask=15')
+        npolls = max(1, len(full.r.get('polls', [])))
+        for _ in range(6 if ctx.quick else 30):
+            sched = []
+            for j in range(rng.randrange(1, 6)):
+                sched.append((rng.randrange(0, min(npolls, 12)), rng.choice(lines_pool if rng.random() < 0.5 else ['isready', 'isready', 'stop'])))
+            sched.sort(key=lambda x: x[0])
+            deadline = rng.random() < 0.2          # the time limit has already expired when the lines arrive
+            opts = f'depth={d} pollmask=15 ' + ('maxtime=0 ' if deadline else '') + ' '.join(f'inject={k}:{l}' for k, l in sched)
+            so = run_search(ctx, pos, opts)
+            ctx.count('scheduled-sessions'); ctx.nontrivial.add((fen, opts))
+            # contract: lines are consumed in order; isready -> readyok and the search goes on; the first other line stops
+            # the search; `stop` is consumed, anything else is handed back; nothing is lost
+            consumed_ready = 0; deferred = []; pending = []; stopped = False
+            for k, l in sched:
+                if k >= len(so.r.get('polls', [])) and not stopped:
+                    pending.append(l.replace('_', ' ')); continue
+            # replay the channel semantics independently
+            chan = []; si = 0; polls = so.r.get('polls', [])
+            exp_ready = 0; exp_def = []; stopped = False
+            for pi in range(len(polls)):
+                while si < len(sched) and sched[si][0] == pi:
+                    chan.append(sched[si][1].replace('_', ' ').strip()); si += 1
+                if stopped: break
+                if deadline:
+                    stopped = True; break      # the deadline is looked at first: nothing is read at this poll
+                if chan:
+                    l = chan.pop(0)
+                    w = l.split(' ')[0].lower()
+                    if w == 'isready': exp_ready += 1
+                    elif w == 'stop': stopped = True
+                    else: exp_def.append(l); stopped = True
+            exp_pending = ' '.join(chan)
+            if so.panic or so.n_bestmove != 1 or so.readyok != exp_ready or so.r.get('deferred', '').strip() != ' '.join(exp_def).strip() or (stopped and so.r.get('pending', '').strip() != exp_pending.strip()):
+                ctx.oracle_fail('input-line-lost-or-misanswered', f'search {pos} ; {opts}', {'readyok': so.readyok, 'expected_readyok': exp_ready, 'deferred': so.r.get('deferred'), 'expected_deferred': exp_def,
+                                'pending': so.r.get('pending'), 'expected_pending': exp_pending, 'bestmoves': so.n_bestmove})
+    # real processes, real time
+    positions = ['startpos', 'startpos moves e2e4 e7e5', 'fen r3k2r/p1ppqpb1/bn2pnp1/3PN3/1p2P3/2N2Q1p/PPPBBPPP/R3K2R w KQkq - 0 1', 'fen 8/8/8/4k3/8/8/8/R3K3 w - - 0 1',
+                 'fen 7k/5Q2/6K1/8/8/8/8/8 b - - 0 1', 'fen 4k3/8/8/8/8/8/8/R3K3 w - - 100 80', 'fen rnb1kbnr/pppp1ppp/8/4p3/6Pq/5P2/PPPPP2P/RNBQKBNR w KQkq - 1 3']
+    for i in range(25 if ctx.quick else 400):
+        script, bad = c13_session(ctx, rng, positions)
+        ctx.count('blackbox-sessions'); ctx.count('blackbox-commands', len(script))
+        ctx.nontrivial.add(tuple(script))
+        if bad:
+            ctx.oracle_fail('session-' + bad[0], {'script': script}, {'detail': bad[1], 'output_tail': bad[2]})
+    ctx.sample({'script': script})
+
+RULES['C13'] = 'deterministic schedules (input lines placed in the channel at chosen polls of bounded searches, engine vs model and against the channel contract) and random legal GUI sessions on the real binary in real time (uci/isready/ucinewgame/position/go*/stop bursts, quit or EOF idle and mid-search); distinct = distinct scripts/schedules'
+ASSUME['C13'] = ['OS scheduling of the reader thread, pipe buffering and process::exit are outside the model; the black-box sessions sample them in real time', 'the deterministic schedules cover the poll logic only (which line is read at which poll)']
